@@ -20,7 +20,7 @@ RULE = (
 )
 TRUSTED_BASE = ["Python int/bytes/dict semantics, struct.pack('!B'/'!H') as radix-256 encode (modelled directly)"]
 ASSUMPTIONS = [
-    "IDNA/unicode paths, to_unicode, omit_final_dot and pickling are outside the model",
+    "IDNA/unicode paths and to_unicode are outside the model; omit_final_dot, styled text, pickling, Tokenizer.get_name are covered by direct oracles only",
     "compressed round trip is byte-identical under CaseConsistent (no table entry equal to a suffix only up to ASCII case); equal up to case otherwise (RFC 1035/4343 reading, DESIGN §6)",
 ]
 
@@ -658,8 +658,8 @@ def replay(ctx: Ctx, obj: dict):
     return [f.what for f in ctx.failures]
 
 LEVEL = {
-    "text": "Lean 4 theorems (20, lean/Props/C01.lean) over an executable model of dns/name.py and the name part of dns/wirebase.py: text round trip for every legal name over all 256 octet values (with and without origin: the result is the name, or validate(name ++ origin), i.e. it raises exactly when the limits are exceeded); uncompressed wire round trip at any offset inside any surrounding bytes; the decoder is total (accepted by Lean's termination checker on the measure (biggest_pointer, bytes left)) and every successful decode is a derivation of a relational description whose pointer rule demands target < bound, so it only follows pointers to strictly earlier offsets; whatever is decoded is well formed, absolute and inside the buffer; compressed encoding against *any* sound table at *any* offset (also beyond 0x3FFF) only appends, keeps every table entry decodable to its key, and decodes back to the name up to ASCII case (byte-identical under an explicit case-consistency hypothesis); the constructor accepts exactly the well-formed label lists and every name-producing operation (concatenate, relativize, derelativize, parent, split, successor, predecessor) returns a well-formed name or raises. The model is tied to the code by a differential correspondence check over every modelled function (compiled Lean driver vs dnspython in-process) and by constants (escaped set, 63/255/64/192/0x3FFF/0xC000) regenerated from the working tree and fed to the theorems.",
-    "note": "Trusted: Lean kernel + propext/Classical.choice/Quot.sound; the statements in lean/Props/C01.lean; the correspondence harness and its generators (differential testing bounds the tie); harness/extract.py. IDNA/unicode paths, to_unicode, omit_final_dot and pickling are outside the model; the tokenizer composition (a printed name is one identifier token) is proved in C09.",
+    "text": "Lean 4 theorems (29, lean/Props/C01.lean) over an executable model of dns/name.py and the name part of dns/wirebase.py: text round trip for every legal name over all 256 octet values (with and without origin: the result is the name, or validate(name ++ origin), i.e. it raises exactly when the limits are exceeded); uncompressed wire round trip at any offset inside any surrounding bytes; the decoder is total (accepted by Lean's termination checker on the measure (biggest_pointer, bytes left)) and every successful decode is a derivation of a relational description whose pointer rule demands target < bound, so it only follows pointers to strictly earlier offsets; whatever is decoded is well formed, absolute and inside the buffer; the bytes-returning and the file-writing path of to_wire with an origin (with and without a compression table) write exactly name + origin and raise NameTooLong exactly beyond 255 octets (toWireO_roundtrip, toWireF_plain_roundtrip, toWireF_closed, toWireF_compress_sound); compressed encoding against *any* sound table at *any* offset (also beyond 0x3FFF) only appends, keeps every table entry decodable to its key, and decodes back to the name up to ASCII case (byte-identical under an explicit case-consistency hypothesis); the constructor accepts exactly the well-formed label lists and every name-producing operation (concatenate, relativize, derelativize, parent, split, successor, predecessor) returns a well-formed name or raises. The model is tied to the code by a differential correspondence check over every modelled function (compiled Lean driver vs dnspython in-process) and by constants (escaped set, 63/255/64/192/0x3FFF/0xC000) regenerated from the working tree, fed to the theorems and pinned to the property's numbers by limits_are_rfc1035. Direct oracles (outside the model) cover Tokenizer.get_name with origin/relativize/relativize_to, styled text and omit_final_dot, str()/copy/pickle/__setstate__, canonicalize, the +/-/choose_relativity aliases, str/mixed/tuple label inputs of the constructor (UTF-8 octet limits), bytes-vs-str input of from_text and agreement of from_unicode with from_text where IDNA is not involved.",
+    "note": "Trusted: Lean kernel + propext/Classical.choice/Quot.sound; the statements in lean/Props/C01.lean; the correspondence harness and its generators (differential testing bounds the tie); harness/extract.py. IDNA/unicode paths and to_unicode are outside; omit_final_dot, styled text, pickling and the tokenizer route are oracle-only (the tokenizer composition — a printed name is one identifier token — is proved in C09).",
     "technique": "Lean 4 proof (induction over label lists / escape automaton, well-founded recursion, relational decoder spec, compression-table invariant) + model-vs-implementation correspondence",
     "design_ref": "DESIGN.md §7 C01, §13.3",
 }
